@@ -2,7 +2,7 @@
 { "tu": "src/queue.c", "enforce": "_dispatch_lane_drain", "props": ["C02","C03","C04","C06","C01"], "plain": true, "timeout": 400,
   "bounded": {"unwind": 5, "what": "drains of <= 3 queued items (the drain loop is entered by a goto into its body: not a natural loop, so no loop contract can be attached)"},
   "assumes": ["scenario semantics: dq_state, the target queue and the item list change only through this drain's own call-outs (an item may suspend or retarget the queue); pinned by a rely clause / ghost state that the stubs update"],
-  "stub_note": "item list access (get_head/pop_head), _dispatch_continuation_pop_inline (= an item starts running), width helpers (own contracts in C04), redirect/wake of readers: stubs recording order and checking the run conditions" }
+  "stub_note": "_dispatch_queue_max_qos (asserts it is not applied to the WLH_ANON marker), item list access (get_head/pop_head), _dispatch_continuation_pop_inline (= an item starts running), width helpers (own contracts in C04), redirect/wake of readers: stubs recording order and checking the run conditions" }
 VERIF*/
 #ifdef VERIF_PRE
 extern const volatile void *H_state_p; extern unsigned long long H_state_now;
@@ -21,6 +21,8 @@ static inline struct dispatch_object_s *_dispatch_queue_pop_head(dispatch_lane_c
   if (H_pos >= H_nitems || dc != (void *)&H_items[H_pos]) H_bad_pop = 1;
   H_pos++; if (H_pos >= H_nitems) { dqu._dl->dq_items_tail = 0; return 0; } return (void *)&H_items[H_pos]; }
 static inline bool _dispatch_needs_to_return_to_kernel(void) { return false; }
+/* the marker is not an object: no queue state may be read through it (C03: hierarchies whose bottom is a work loop) */
+static inline dispatch_qos_t _dispatch_queue_max_qos(dispatch_queue_class_t dq) { VERIF_ASSERT(a_work_loop_is_only_consulted_when_the_thread_is_bound_to_one, (void *)dq._dq != (void *)DISPATCH_WLH_ANON); return ND(dispatch_qos_t) & 7; }
 static inline bool _dispatch_queue_try_upgrade_full_width(dispatch_lane_t dq, uint64_t owned) { (void)dq; (void)owned; H_upgraded = ND_BOOL(); return H_upgraded; }
 static inline void _dispatch_queue_reserve_sync_width(dispatch_lane_t dq) { (void)dq; H_have_reader_width = 1; }
 static inline bool _dispatch_queue_try_acquire_async(dispatch_lane_t dq) { (void)dq; H_have_reader_width = ND_BOOL(); return H_have_reader_width; }
@@ -44,7 +46,7 @@ static inline void _dispatch_continuation_pop_inline(dispatch_object_t dou, disp
 }
 VERIF_CONTRACT(dispatch_queue_wakeup_target_t, _dispatch_lane_drain, (dispatch_lane_t dq, dispatch_invoke_context_t dic, dispatch_invoke_flags_t flags, uint64_t *owned_ptr, bool serial_drain),
   REQ(dq == H_DQ && dic == &H_dic && serial_drain == H_serial && H_runs == 0 && !H_bad_run && !H_bad_pop && H_pos == 0 && H_nitems >= 1 && H_nitems <= 3)
-  REQ(!(flags & (DISPATCH_INVOKE_WORKLOOP_DRAIN | DISPATCH_INVOKE_THREAD_BOUND | DISPATCH_INVOKE_DISALLOW_SYNC_WAITERS)) && (H_serial == (H_lane.dq_width == 1)))
+  REQ(!(flags & (DISPATCH_INVOKE_THREAD_BOUND | DISPATCH_INVOKE_DISALLOW_SYNC_WAITERS)) && (H_serial == (H_lane.dq_width == 1)))
   ASG(VERIF_GHOST)
   ENS(items_start_only_when_not_suspended_not_retargeted_and_from_the_head, !H_bad_run)
   ENS(queue_is_consumed_strictly_from_the_head, !H_bad_pop)
@@ -65,7 +67,10 @@ void harness(void)
 	H_lane.dq_items_tail = (void *)&H_items[H_nitems - 1]; H_lane.do_targetq = (dispatch_queue_t)&H_tq0;
 	H_pos = 0; H_runs = H_redirects = H_reader_wakes = 0; H_bad_run = H_bad_pop = 0; H_dic.dic_barrier_waiter = 0;
 	dispatch_invoke_flags_t flags = ND(dispatch_invoke_flags_t);
-	__CPROVER_assume(!(flags & (DISPATCH_INVOKE_WORKLOOP_DRAIN | DISPATCH_INVOKE_THREAD_BOUND | DISPATCH_INVOKE_DISALLOW_SYNC_WAITERS)));
+	__CPROVER_assume(!(flags & (DISPATCH_INVOKE_THREAD_BOUND | DISPATCH_INVOKE_DISALLOW_SYNC_WAITERS)));
+	/* the queue may be an inner queue of a work loop (WORKLOOP_DRAIN): on this platform (no kevent workloops) the draining thread is not bound to
+	 * the work loop, its wlh is the DISPATCH_WLH_ANON marker */
+	__dispatch_tsd.dispatch_wlh_key = (void *)DISPATCH_WLH_ANON;
 	uint64_t owned = ND(uint64_t);
 	VERIF_PRE_CALL(_dispatch_lane_drain, 0, H_DQ, &H_dic, flags, &owned, H_serial);
 	dispatch_queue_wakeup_target_t r = _dispatch_lane_drain(H_DQ, &H_dic, flags, &owned, H_serial);
